@@ -17,7 +17,8 @@ namespace {
 enum Kind { kRead, kReadPartial, kPeek, kSeek, kSeekFwd, kSeekBack, kSeekBegin, kSeekEnd,
 	kTyped,      // a = 0:u8 1:u16 2:u32 3:u64 4:3-byte struct
 	kVec8, kVec16, // a = element count
-	kPrefixed,   // a = size type 0:u8 1:i8 2:u16 3:i16 4:u32 5:i32 ; b = container 0:vector<u8> 1:string 2:vector<u16>
+	kSized,      // a = element count ; b = container 0:string 1:u16string 2:u32string 3:wstring 4:vector<u32> 5:vector<Tri> 6:vector<u64>
+	kPrefixed,   // a = size type 0:u8 1:i8 2:u16 3:i16 4:u32 5:i32 ; b = container 0:vector<u8> 1:string 2:vector<u16> 3:u16string 4:wstring 5:vector<u32>
 	kCStr,       // a = maxCount
 	kSlice1, kSlice2 };
 
@@ -27,10 +28,10 @@ struct Tri { uint8_t b[3]; };
 
 std::string showOp(const Op& o)
 {
-	static const char* n[] = { "Read", "ReadPartial", "Peek", "Seek", "SeekForward", "SeekBackward", "SeekBeginning", "SeekEnd", "ReadT", "ReadVec8", "ReadVec16", "ReadPrefixed", "ReadCStr", "Slice", "Slice" };
+	static const char* n[] = { "Read", "ReadPartial", "Peek", "Seek", "SeekForward", "SeekBackward", "SeekBeginning", "SeekEnd", "ReadT", "ReadVec8", "ReadVec16", "ReadSized", "ReadPrefixed", "ReadCStr", "Slice", "Slice" };
 	std::string s = n[o.kind];
 	s += "(" + std::to_string(o.a);
-	if (o.kind == kPrefixed || o.kind == kSlice2) s += "," + std::to_string(o.b);
+	if (o.kind == kPrefixed || o.kind == kSlice2 || o.kind == kSized) s += "," + std::to_string(o.b);
 	return s + ")";
 }
 
@@ -84,7 +85,8 @@ struct Harness {
 		v.push_back({ kSeekBegin }); v.push_back({ kSeekEnd });
 		for (uint64_t t = 0; t < 5; ++t) v.push_back({ kTyped, t, 0 });
 		for (uint64_t m : { 0ull, 1ull, 2ull, (unsigned long long)(len - s.mpos), (unsigned long long)(len - s.mpos + 1) }) { v.push_back({ kVec8, m }); v.push_back({ kVec16, m }); }
-		for (uint64_t st = 0; st < 6; ++st) for (uint64_t c = 0; c < 3; ++c) v.push_back({ kPrefixed, st, c });
+		for (uint64_t c = 0; c < 7; ++c) for (uint64_t m : { 0ull, 1ull, 2ull, 3ull }) v.push_back({ kSized, m, c });
+		for (uint64_t st = 0; st < 6; ++st) for (uint64_t c = 0; c < 6; ++c) v.push_back({ kPrefixed, st, c });
 		for (auto k : K) v.push_back({ kSlice1, k, 0 });
 		std::set<uint64_t> S = { 0, 1, len, len + 1, s.mpos, 0x8000000000000000ull, ~0ull };
 		if (len) S.insert(len - 1);
@@ -148,6 +150,31 @@ struct Harness {
 		if (p == s.mpos || (rem >= sizeof(S) && p == s.mpos + sizeof(S))) { s.mpos = p; return !check || posOk(s, op, hist, clause.c_str()); }
 		if (check) bad(clause + "/position-after-reject", op, hist, "Position()=" + std::to_string(p) + " old " + std::to_string(s.mpos));
 		return false;
+	}
+
+	// pre-sized container / string of any element width: consumes exactly size() * sizeof(element) bytes
+	template <class C>
+	bool sized(State& s, const Op& op, bool check, const std::string& hist)
+	{
+		typedef typename C::value_type E;
+		const auto& src = be.src;
+		uint64_t rem = src.size() - s.mpos;
+		C container;
+		container.resize(std::size_t(op.a));
+		uint64_t bytes = op.a * sizeof(E);
+		auto o = mc::guarded([&] { s.r->Read(container); });
+		if (bytes <= rem) {
+			if (check) ctx.count(sizeof(E) > 1 ? "typed/sized-wide-ok" : "typed/sized-ok");
+			if (o.cls != 'R') { if (check) bad("ReadSized/refused-in-bounds", op, hist, o.what); return false; }
+			if (container.size() != op.a) { if (check) bad("ReadSized/container-resized", op, hist, ""); return false; }
+			if (bytes && std::memcmp(container.data(), &src[s.mpos], bytes) != 0) { if (check) bad("ReadSized/bytes", op, hist, "element width " + std::to_string(sizeof(E))); return false; }
+			s.mpos += bytes;
+		}
+		else {
+			if (check) ctx.count("typed/sized-reject");
+			if (o.cls == 'R') { if (check) bad("ReadSized/accepted-out-of-bounds", op, hist, ""); return false; }
+		}
+		return !check || posOk(s, op, hist, "ReadSized");
 	}
 
 	bool checkSlice(R& sl, uint64_t start, uint64_t n, const Op& op, const std::string& hist)
@@ -273,8 +300,20 @@ struct Harness {
 			}
 			return !check || posOk(s, op, hist, "ReadVec");
 		}
+		case kSized: {
+			switch (op.b) {
+			case 0: return sized<std::string>(s, op, check, hist);
+			case 1: return sized<std::u16string>(s, op, check, hist);
+			case 2: return sized<std::u32string>(s, op, check, hist);
+			case 3: return sized<std::wstring>(s, op, check, hist);
+			case 4: return sized<std::vector<uint32_t>>(s, op, check, hist);
+			case 5: return sized<std::vector<Tri>>(s, op, check, hist);
+			default: return sized<std::vector<uint64_t>>(s, op, check, hist);
+			}
+		}
 		case kPrefixed: {
-#define PFX(ST, NAME) (op.b == 0 ? prefixed<ST, std::vector<uint8_t>>(s, op, check, hist, NAME) : op.b == 1 ? prefixed<ST, std::string>(s, op, check, hist, NAME) : prefixed<ST, std::vector<uint16_t>>(s, op, check, hist, NAME))
+#define PFX(ST, NAME) (op.b == 0 ? prefixed<ST, std::vector<uint8_t>>(s, op, check, hist, NAME) : op.b == 1 ? prefixed<ST, std::string>(s, op, check, hist, NAME) : op.b == 2 ? prefixed<ST, std::vector<uint16_t>>(s, op, check, hist, NAME) \
+	: op.b == 3 ? prefixed<ST, std::u16string>(s, op, check, hist, NAME) : op.b == 4 ? prefixed<ST, std::wstring>(s, op, check, hist, NAME) : prefixed<ST, std::vector<uint32_t>>(s, op, check, hist, NAME))
 			switch (op.a) {
 			case 0: return PFX(uint8_t, "u8");
 			case 1: return PFX(int8_t, "i8");
